@@ -22,7 +22,7 @@
    generated (see checks/c17.py, `assumptions`): leap second :60, zone offsets
    +24:00 / :60, lower-case 't'/'z', ',' as fraction separator, IPv4 octets with
    leading zeros, IPv6 zones, CIDR prefix with leading zeros, 20-octet
-   InfiniBand MAC, UUID variants other than RFC 4122 and the nil UUID,
+   InfiniBand MAC, the nil UUID,
    host names with a trailing dot or an all-numeric last label, RFC 822 zones
    "UT" / military / numeric and 1-digit days, weekday not matching the date,
    URI references without scheme, characters such as space or '<' in URI
@@ -241,7 +241,10 @@ UuidGroup(x, gi, c) ==
   LET off == <<0, 8, 12, 16, 20>>[gi]
       len == <<8, 4, 4, 4, 12>>[gi] + (IF c.i = gi THEN (CASE c.k = "shortgrp" -> -1 [] c.k = "longgrp" -> 1 [] OTHER -> 0) ELSE 0)
                + (IF c.k = "shift" THEN (IF gi = 1 THEN 1 ELSE IF gi = 2 THEN -1 ELSE 0) ELSE 0)
-      dig(j) == LET d == IF gi = 3 /\ j = 1 THEN x.ver ELSE IF gi = 4 /\ j = 1 THEN x.var ELSE HexRun[((off + j + x.k) % 36) + 1]
+      \* ("variant" corruption: the variant nibble outside 10x - NCS 0/7, Microsoft c, future e/f - is not an RFC 4122 UUID)
+      dig(j) == LET d == IF gi = 3 /\ j = 1 THEN x.ver
+                         ELSE IF gi = 4 /\ j = 1 THEN (IF c.k = "variant" THEN <<"0", "7", "c", "e", "f">>[c.i] ELSE x.var)
+                         ELSE HexRun[((off + j + x.k) % 36) + 1]
                 IN IF c.k = "nonhex" /\ c.i = gi /\ j = 2 THEN "g" ELSE IF x.up THEN UpDigit(d) ELSE d
       RECURSIVE cat(_)
       cat(j) == IF j > len THEN "" ELSE dig(j) \o cat(j + 1)
@@ -259,6 +262,7 @@ UuidCorrs(x) == LET t == UuidToks(x, NoCorr) IN
                 \cup {Corr(k, i) : k \in {"shortgrp", "longgrp", "nonhex"}, i \in {1, 3, 5}}
                 \cup (IF x.form = "urn" THEN {Corr("urnbad", 0)} ELSE {})
                 \cup (IF x.form = "brace" THEN {Corr("bracel", 0), Corr("bracer", 0)} ELSE {})
+                \cup {Corr("variant", i) : i \in 1..5}
 
 \* ---- hostname: RFC 952 / RFC 1123 section 2.1: labels of letters, digits and hyphens, no hyphen at either
 \*      end, 1..63 characters each, joined by dots, at most 253 characters in all ---------------------------
